@@ -9,6 +9,7 @@ namespace
     struct VecTraits
     {
         template <class T> using vec = igris::vector<T, trk::TrackAlloc<T>>;
+        template <class T> using vec_default = igris::vector<T>; // the header's own default allocator
         static constexpr const char *name = "vector";
         static constexpr bool has_at = true, has_less = true, has_sorted = true, has_il = true, has_list_range = true, has_erase_range = true;
     };
